@@ -90,3 +90,16 @@ From JP Require Import Proofs.TieParse.
 Theorem C02_parser_tables_regenerated : parse_tables_ok = true.
 Proof. exact parse_tables_regenerated. Qed.
 Print Assumptions C02_parser_tables_regenerated.
+
+(* ... and from the ABNF itself (Proofs/AbnfSpellF.v): for every string of the grammar that makes no function call - filters, comparisons, nested
+   filters and all - find(string, v) is the RFC nodelist of a query (the one the string spells), in every environment whose integer range contains
+   the integers it mentions *)
+From JP Require Import Spec.Abnf Spec.Rfc9535Grammar Proofs.AbnfSpell Proofs.AbnfSpellF.
+Theorem C02_abnf_no_call : forall s, derives nf_grammar (R r_jsonpath_query) s ->
+  exists B, forall cfg, reg_ok (reg cfg) = true -> (1 <= max_depth cfg)%nat -> min_idx cfg <= - B -> B <= max_idx cfg ->
+    exists q, forall v, good cfg v -> m_env_find cfg s v = Ok (sem (reg cfg) (rx cfg) q v).
+Proof.
+  intros s H. destruct (abnf_no_call_compiles s H) as (B & K). exists B. intros cfg Hr HN H1 H2. destruct (K cfg (conj H1 H2)) as (q & Ec). exists q. intros v Hg.
+  apply (C02_find_compiled cfg Hr HN s q v Ec Hg).
+Qed.
+Print Assumptions C02_abnf_no_call.
